@@ -163,7 +163,13 @@ pub fn judge(b: &Batch, ri: usize, c: Container, p: PathK, v: u32, input: &[u8])
     let mut absurd: Option<(u64, usize)> = None;
     let mut unknown = false; // the reference decoder has no expectation for this type
     let mut payload: &[u8] = payload;
-    if c == Container::Plain && input.len() > HEADER_LEN {
+    let legacy_format = c == Container::Plain && input.len() >= 11 && input[9..11] != [2, 0];
+    if legacy_format {
+        // header of an older library format (different header and schema grammar): the
+        // reference pre-screen has no expectation for what follows
+        payload = &[];
+        unknown = true;
+    } else if c == Container::Plain && input.len() > HEADER_LEN {
         match vcore::rschema::parse_schema(&input[HEADER_LEN..], 2) {
             Ok((_, used)) => payload = &input[HEADER_LEN + used..],
             Err(e) => {
@@ -203,7 +209,7 @@ pub fn judge(b: &Batch, ri: usize, c: Container, p: PathK, v: u32, input: &[u8])
         }
     }
     let r = ops.read_slice(c, p, if c == Container::Bare { v } else { u.version }, input);
-    let ex = json!({"container": format!("{:?}", c), "path": format!("{:?}", p), "version": v, "input": hcore::runner::hex_full(&input[..input.len().min(4096)])});
+    let ex = json!({"container": format!("{:?}", c), "path": format!("{:?}", p), "version": v, "input": hcore::runner::hex_full(&input[..input.len().min(1 << 20)])});
     match r {
         Out::Err(_) => Ok("err"),
         Out::Panic(m) => {
